@@ -77,6 +77,7 @@ type FuncSpec struct {
 	NoPanic   bool
 	CrashInv  []Clause
 	Terminates bool
+	EntryGhost []GhostUpdate
 	Props     []string // default property tags for every clause
 	bound     bool
 }
@@ -430,6 +431,19 @@ func (w *World) loadSpecFile(path, pkg string) error {
 			}
 			head := strings.Fields(rest[:idx])
 			body := strings.TrimSpace(rest[idx+1:])
+			if len(head) == 1 && head[0] == "entry" && strings.HasPrefix(body, "ghost") {
+				gb := strings.TrimSpace(body[len("ghost"):])
+				eq := strings.Index(gb, "=")
+				if eq < 0 {
+					return fail("ghost target = expr")
+				}
+				ge, err := ParseSpecExpr(gb[eq+1:])
+				if err != nil {
+					return fail("%v", err)
+				}
+				cur.EntryGhost = append(cur.EntryGhost, GhostUpdate{Target: strings.TrimSpace(gb[:eq]), Value: ge, Src: gb, File: r.file, Line: r.line})
+				continue
+			}
 			if len(head) != 2 || (head[0] != "call" && head[0] != "return") {
 				return fail("at (call|return) f#n: ...")
 			}
